@@ -13,7 +13,7 @@ from simkit.core import EventLog, HarnessError, ddmin_lists, digest
 
 PROP = "C11"
 LEVEL = "exploration"
-BUDGET_S = {"quick": 300, "thorough": 3 * 3600}
+BUDGET_S = {"quick": 300, "thorough": 1500}
 CHUNK = 200
 RULE = (
     "each run = a generated register layout (1..6 registers of 8..512 bits, bit-fields partitioning each register with "
